@@ -316,3 +316,5 @@ def run(rep, repo, tier):
     c02_life.run_life(rep, repo, tier)
     import c14_ident
     c14_ident.run_ext_vec(rep, repo, tier)
+    import c02_flat
+    c02_flat.run_ext(rep, repo, tier)
